@@ -372,7 +372,13 @@ def run(prop_id, tier, seed, replay=None):
                                     "paths_rerun_for_timing": sum(1 for t in p.observed if t.get("retries")),
                                     "edges_only_reachable_through_model_violation": p.unreach}
                           for p in parts}}
-        return family.finish(prop_id, tier, seed, t0, tlc, g if not replay else None, paths, observed, verdict, dr,
-                             extra, ASSUMPTIONS, label=label)
+        rc = family.finish(prop_id, tier, seed, t0, tlc, g if not replay else None, paths, observed, verdict, dr,
+                           extra, ASSUMPTIONS, label=label)
+        if not replay and rc != 1 and "peerset" in os.environ.get("VERIF_C13_PARTS", "peerset").split(","):
+            # peer-set bookkeeping slice (PeerSet.tla, vlib/families/peerset.py), coverage merged into the evidence
+            from . import peerset
+            rc2, cov2 = peerset.run_slice(prop_id, tier, seed)
+            rc = max(rc, peerset.merge_evidence(prop_id, cov2, rc2))
+        return rc
     finally:
         shutil.rmtree(sc, ignore_errors=True)
